@@ -104,7 +104,7 @@ def run(chk, prog):
     s = I.scan(wu)
     cp = [c for c in s.calls if c.callee == "std::copy_n"]
     ok = len(cp) == 1 and str(cp[0].args[0]) == "wakePotential(_field)" and str(cp[0].args[2]) == "data(_offset)"
-    others = [a for a in s.accesses if a.kind == "store" and a.base == "_offset"]
+    others = [a for a in s.accesses if a.kind == "store" and a.base == "_offset" and getattr(a, "bulk", None) is None]   # (a plain copy loop counts as the copy)
     chk.check(ok and not others, "R3", wu.where, "the kick offsets are the field's wake potential, copied without arithmetic", "WakePotentialMap::update:copy")
     upd2 = [c for c in s.calls if c.callee == "vfps::KickMap::updateSM"]
     chk.check(len(upd2) == 1 and (not cp or upd2[0].node["id"] > cp[0].node["id"]), "R3", wu.where, "the source map is rebuilt after the offsets were copied", "WakePotentialMap::update:updateSM")
